@@ -289,7 +289,23 @@ func (runInfo *runInfoStruct) invokeAddrExpr(expr *ast.AddrExpr) {
 		return
 	}
 
-	if runInfo.rv.CanAddr() {
+	// only a place has an address: a variable, a member, an element, or what a pointer points to. The value of any
+	// other expression (a call, try as the last statement of a function, ...) is a temporary, and its address is the
+	// address of a copy - the cell it happens to sit in may be shared (env.NilValue is)
+	isPlace := false
+	operand := expr.Expr
+	for {
+		paren, ok := operand.(*ast.ParenExpr)
+		if !ok {
+			break
+		}
+		operand = paren.SubExpr
+	}
+	switch operand.(type) {
+	case *ast.IdentExpr, *ast.MemberExpr, *ast.ItemExpr, *ast.DerefExpr:
+		isPlace = true
+	}
+	if isPlace && runInfo.rv.CanAddr() {
 		runInfo.rv = runInfo.rv.Addr()
 	} else {
 		i := runInfo.rv.Interface()
